@@ -175,7 +175,7 @@ pub fn run_pipe(s: &Script, plain: &[u8], ops: &[Vec<i64>], st: &mut Stats) -> R
     let mut put_failed = false;
     let mut cb_calls = 0i64;
     let mut had_pending = false;
-    let tail_cap = 64 + n / 1000 + n / 3;
+    let tail_cap = 64 + n / 1000 + n / 3 + if s.c_or("tail_out", 4096) < 64 { 2 * n + 600 } else { 0 };
     loop {
         let (chunk, out_len, mut fl) = if opi < ops.len() {
             let o = &ops[opi];
@@ -185,7 +185,7 @@ pub fn run_pipe(s: &Script, plain: &[u8], ops: &[Vec<i64>], st: &mut Stats) -> R
             if tail_calls > tail_cap {
                 return viol(&format!("{}.liveness", cp), format!("Finish loop did not reach Done within {} calls ({} of {} consumed, {} bytes out)", tail_cap, pos, n, sink.len()));
             }
-            (n, 4096, 4)
+            (n, s.c_or("tail_out", 4096).max(1) as usize, 4)
         };
         opi += 1;
         delivered = (delivered + chunk).min(n);
